@@ -173,6 +173,19 @@ CLAIMED = {
          "asyncio.sleep contract); no liveness claim.",
     technique="contract-based deductive verification: cooperative Owicki-Gries style invariant over atomic segments of the real coroutine, z3",
     design="4 C17 / 5"),
+ "C07": dict(
+    category="proof",
+    text="Deductive, modular: Driver.message_from_client(getProperties) is proved to obtain and send exactly one definition per property -- only the named one when a name is given, "
+         "none for an unknown name -- with the driver as sender; Vector.to_def_message / to_set_message (generic, switch and light variants) are proved, for a vector of any "
+         "size, to yield the property's own kind of message carrying device name, property name, current state and the definition's metadata, a delProperty / no update exactly "
+         "when the property or its group is disabled, and as children exactly '[element's own to_*_message for each enabled element, in order]'; the element-level functions "
+         "are proved on a generic element: name, label, current value (numbers rendered through the real num_to_str for %f, %.2f, %d and all five sexagesimal formats and accepted "
+         "by the real validator), BLOB payload attributes, and every constructor-required attribute present -- i.e. each emitted message is valid and, by C03, read back unchanged. "
+         "Group inheritance through subclassing (depth 3, overriding) is a ground obligation executed from the real metaclass and constructor.",
+    note="Assumed: CPython number formatting contract (printf output language, correct rounding); floats as reals; formats with width/flags excluded (the library's validator rejects "
+         "them: C10); definition metadata is protocol vocabulary; comprehension recognised syntactically.",
+    technique="contract-based deductive verification: modular VCs from the real AST, regular-language reasoning for rendered numbers, z3",
+    design="4 C07"),
 }
 
 NOT_YET = "check not built yet (work in progress)"
